@@ -95,7 +95,8 @@ Proof. exact replace_entry. Qed.
           the type id typify assigns to s' is the native entry of the conversion.
         Proved: the cache consulted at convert_schema is insensitive to annotations and
         honours the first matching conversion.  [strip], [seqb] are section variables
-        (SchemaObject{metadata: None, ..}, derived PartialEq) with the two hypotheses shown. *)
+        (without_metadata = metadata removed at every depth since a0b7480, derived PartialEq)
+        with the hypotheses shown. *)
 Theorem C14_convert_lookup_ignores_annotations :
   forall (Sch : Type) (strip : Sch -> Sch) (seqb : Sch -> Sch -> bool) c s s',
     strip s = strip s' -> cache_lookup Sch strip seqb c s = cache_lookup Sch strip seqb c s'.
@@ -111,15 +112,20 @@ Theorem C14_convert_everywhere_partial :
         convert_schema Sch strip seqb (cache_of Sch strip (before ++ (s, r) :: after)) conv_obj s' = native_entry r.
 Proof. exact convert_first_wins. Qed.
 
-(* Known class C14-F1: "ignoring annotations" holds for the subschema's OWN annotations only
-   (the hypothesis [strip s' = strip s] above is the exclusion): schemas equal up to
-   annotations at every level ([toy_deep]) can miss the cache.  Replayed on the real code:
-   corpus/C14/F1-nested-annotation.json. *)
-Theorem C14_convert_nested_annotation_refuted : exists s s' r,
+(* Former finding C14-F1 (fixed in /repo by a0b7480): the strip is now recursive, so the
+   lookup ignores annotations at EVERY depth.  Instance of the theorems above on a toy schema
+   type with the deep strip [toy_deep]; [toy_top] is the strip of the code before the fix. *)
+Theorem C14_convert_ignores_nested_annotations : forall before s r after s' conv_obj,
+  toy_deep s' = toy_deep s ->
+  (forall sr, In sr before -> toy_deep (fst sr) <> toy_deep s) ->
+  convert_schema toy toy_deep toy_eqb (cache_of toy toy_deep (before ++ (s, r) :: after)) conv_obj s' = native_entry r.
+Proof. exact convert_ignores_nested_annotations. Qed.
+
+Theorem C14_top_level_strip_misses : exists s s' r,
   toy_deep s = toy_deep s' /\
-  cache_lookup toy toy_strip toy_eqb (cache_of toy toy_strip [(s, r)]) s = Some (native_entry r) /\
-  cache_lookup toy toy_strip toy_eqb (cache_of toy toy_strip [(s, r)]) s' = None.
-Proof. exact convert_nested_annotation_refuted. Qed.
+  cache_lookup toy toy_top toy_eqb (cache_of toy toy_top [(s, r)]) s' = None /\
+  cache_lookup toy toy_deep toy_eqb (cache_of toy toy_deep [(s, r)]) s' = Some (native_entry r).
+Proof. exact top_level_strip_misses. Qed.
 
 (* ---- none of the settings is read by the semantics of the generated code *)
 Theorem C14_settings_irrelevant_de : forall re_match native_ok T s,
